@@ -12,7 +12,8 @@ EXPLANATION = (
     "is restored in a finally clause; (R03.4) the second inter-level block chain is the transposed mirror of the first (symmetric "
     "shortcut = transpose) and the two insert_block calls use swapped (rows, columns); (R03.5) producer and consumers of the "
     "on-demand bounding box agree on the half-open cell convention; (R03.6) rows assembled per level and the partial-row route "
-    "agree (same row sets reach _assemble_level and represent_fine).")
+    "agree (same row sets reach _assemble_level and represent_fine); (R03.7) the loops that accumulate inter-level index sets "
+    "over the coarser levels within the disparity have no early exit (break/continue/return): every level contributes.")
 DOES_NOT_DECIDE = "equality with I^T A I; which rows must be assembled for a given refinement history"
 TECHNIQUE = "custom AST rules: Optional-field guard dominance, matrix-chain canonical forms and mirror comparison, try/finally pairing, convention agreement"
 
